@@ -36,6 +36,12 @@ TRUSTED_BASE = [
     'conversions on dyadic values',
 ]
 ASSUMPTIONS = [
+    'overlapping requests: a request is cut at its driver call into three atomic segments (start / driver call / finish); the '
+    'harness driver suspends before and after the real call and the scheduler runs one segment at a time, so every '
+    'interleaving of segments is reachable and logged; the theorem C18_overlap_cache_invariant holds for schedules in '
+    'which the clock does not advance while a request is suspended and the removal of a DELETE follows its cache '
+    'invalidation without a suspension in between (sched_okb, evaluated on every schedule run; the generated schedules keep '
+    'the two adjacent: with a driver that suspends between them /repo has the race of notes/C18-remove-race.json)',
     'the clock never goes backwards (AdvanceClock takes a natural number); with a backward jump of more than the cache '
     'age a cached by-timestamp answer can become stale',
     'samples are only ever written at the current time (save_sample is only called with now_ms) and a port\'s type and '
@@ -1179,7 +1185,10 @@ LEVEL_TEXT = (
     'it (cache invariant proved by induction over the request sequence), DELETE removes exactly the half-open range of '
     'that port, and a value change of an on-change port appends exactly one sample. The model is compared step by step '
     '(responses, driver records, cache contents) with the real functions on generated sequences, and the real functions '
-    'are compared with the Coq specification oracle.'
+    'are compared with the Coq specification oracle. Requests overlapping on a suspending driver are modelled as '
+    'interleaved segments (Interleave.v): the cache invariant is proved over every admissible schedule, the harness replays '
+    'the logged schedule through the model exactly, and the spec oracle accepts an overlapping answer iff it is right for '
+    'some store the request\'s window saw, while anything asked after the overlap must be exact.'
 )
 LEVEL_NOTE = (
     'Trusted: Coq kernel incl. vm_compute; the correspondence harness (fake clock, harness ports, generators); the '
